@@ -166,8 +166,14 @@ def run(ctx):
             count["aggregate"] = count.get("aggregate", 0) + 2
             ctx.count((json.dumps(l), "agg", tuple(by)), len(l["k"]) >= 2)
     bad = ctx.validate("LoDJoinTrace", records)
+    outside = {}
     for i, clause in bad:
+        if clause.startswith("split:"):
+            outside.setdefault(clause, records[i])      # split is specified (LoDJoin) but not named by the property: a NOTE
+            continue
         ctx.fail(clause, sig_of(records[i]), {"rec": records[i]})
+    for clause, rec in sorted(outside.items()):
+        ctx.notes.append("outside-listed-properties LoDJoin %s example=%s" % (clause, {k: rec[k] for k in ("L", "a", "groups", "err")}))
     for i in range(0, len(records), max(1, len(records) // 6)):
         ctx.sample(records[i])
     ctx.extra["calls_per_kind"] = count
